@@ -1,6 +1,8 @@
 (** Judges for C03: sequential histories (lockstep oracle) and concurrent programs (set of
     reachable outcomes of exhaustively enumerated interleavings). *)
 From OCV Require Export Base.Prelude Queue.PMap Queue.OWS Queue.OWSOracle Cases.OWS Queue.Conc.
+From OCV Require Queue.PWS.
+From OCV Require Export Cases.PWS.
 From Coq Require Import String.
 Open Scope string_scope.
 
@@ -32,8 +34,9 @@ Definition judge_conc (c : ccase) : verdict :=
                    then ["empty_pop"] else []);
      v_note := "" |}.
 
-Definition judge (c : qcase + ccase) : verdict :=
+Definition judge (c : (qcase + ccase) + pcase) : verdict :=
   match c with
-  | inl q => judge_with o_c03 q
-  | inr cc => judge_conc cc
+  | inl (inl q) => judge_with o_c03 q
+  | inl (inr cc) => judge_conc cc
+  | inr p => judge_pws_c03 p
   end.
